@@ -11,14 +11,28 @@ CONSTANTS MaxL, MaxS, R, UseCatalogue
 Catalogue == { << <<4,0,0>>, <<0,4,0>>, <<0,0,4>> >>, << <<3,0,0>>, <<0,5,0>>, <<0,0,7>> >>, << <<4,0,0>>, <<0,5,0>>, <<-2,0,6>> >>,
                << <<8,0,0>>, <<-4,7,0>>, <<0,0,6>> >>, << <<8,0,0>>, <<4,7,0>>, <<0,0,6>> >>,
                << <<6,0,0>>, <<-2,6,0>>, <<-2,-3,5>> >>, << <<6,0,0>>, <<0,6,0>>, <<3,3,4>> >>,
-               << <<4,0,0>>, <<7,4,0>>, <<9,-6,4>> >>, << <<2,0,0>>, <<1,12,0>>, <<-1,5,3>> >> }
+               << <<4,0,0>>, <<7,4,0>>, <<9,-6,4>> >>, << <<2,0,0>>, <<1,12,0>>, <<-1,5,3>> >>,
+               \* strongly skewed (115/110/115 degrees, edges 5:4:3): a sum of two cell vectors is shorter than one of them
+               << <<20,0,0>>, <<-7,14,0>>, <<-4,-8,8>> >>, << <<10,0,0>>, <<-4,7,0>>, <<-2,-4,4>> >>,
+               \* almost rectangular cells (angles within 0.2 degrees of 90): skewed all the same
+               << <<300,0,0>>, <<0,300,0>>, <<1,0,300>> >>, << <<300,0,0>>, <<1,300,0>>, <<0,-1,300>> >> }
 Cells == IF UseCatalogue THEN Catalogue
          ELSE { <<<<ax,0,0>>, <<bx,by,0>>, <<cx,cy,cz>>>> : ax \in 2..MaxL, by \in 2..MaxL, cz \in 2..MaxL, bx \in -MaxS..MaxS, cx \in -MaxS..MaxS, cy \in -MaxS..MaxS }
 VARIABLES cell, r, ph
 vars == <<cell, r, ph>>
 Init == cell = << <<1,0,0>>, <<0,1,0>>, <<0,0,1>> >> /\ r = <<0,0,0>> /\ ph = 0
 PickCell == ph = 0 /\ ph' = 1 /\ cell' \in Cells /\ r' = r
-PickR == ph = 1 /\ ph' = 2 /\ cell' = cell /\ r' \in {<<x,y,z>> : x \in -R..R, y \in -R..R, z \in -R..R}
+\* displacements: a cube around the origin, and (for cells much larger than that cube) cubes around the 27 half-lattice points, where
+\* the wrap decisions are taken
+Big(c) == c[1][1] > 4 * R
+Halves(c) == { << (sa*c[1][1] + sb*c[2][1] + sc*c[3][1]) \div 2, (sb*c[2][2] + sc*c[3][2]) \div 2, (sc*c[3][3]) \div 2 >> : sa \in {-1,0,1}, sb \in {-1,0,1}, sc \in {-1,0,1} }
+Probe(c) == {<<x,y,z>> : x \in -R..R, y \in -R..R, z \in -R..R}
+            \cup (IF Big(c) THEN { <<h[1]+x, h[2]+y, h[3]+z>> : h \in Halves(c), x \in -1..1, y \in -1..1, z \in -1..1 } ELSE {})
+PickR == ph = 1 /\ ph' = 2 /\ cell' = cell /\ r' \in Probe(cell)
+\* "below half the smallest cell width": exact (IntVec) for the small cells; for the big almost rectangular ones the exact test overflows
+\* TLC's 32-bit integers, and a sufficient condition is used instead (each width exceeds the smallest diagonal entry minus 2)
+MinDiag(c) == LET m1 == IF c[1][1] < c[2][2] THEN c[1][1] ELSE c[2][2] IN IF m1 < c[3][3] THEN m1 ELSE c[3][3]
+InRange(d2, c) == IF Big(c) THEN 4 * d2 <= (MinDiag(c) - 2) * (MinDiag(c) - 2) ELSE BelowHalfWidth(d2, c)
 Next == PickCell \/ PickR
 Spec == Init /\ [][Next]_vars
 Case == ph = 2
@@ -26,8 +40,8 @@ Case == ph = 2
 LatticeCongruent == Case => \A v \in AlgoVec(r, cell) : IsLattice(Sub(v, r), cell)
 NeverBelow == Case => \A d \in Algo2(r, cell) : d >= TrueMin2(r, cell)
 ExactOrtho == (Case /\ Orthogonal(cell)) => Algo2(r, cell) = {TrueMin2(r, cell)}
-ExactInRange == (Case /\ BelowHalfWidth(TrueMin2(r, cell), cell)) => Algo2(r, cell) = {TrueMin2(r, cell)}
+ExactInRange == (Case /\ InRange(TrueMin2(r, cell), cell)) => Algo2(r, cell) = {TrueMin2(r, cell)}
 VecSeq(S) == LET RECURSIVE F(_) F(T) == IF T = {} THEN <<>> ELSE LET x == CHOOSE y \in T : TRUE IN <<x>> \o F(T \ {x}) IN F(S)
 Emit == ph' = 2 => PrintT(<<"TR", ToJson([cell |-> cell', r |-> r', vecs |-> VecSeq(AlgoVec(r', cell')), tmin |-> TrueMin2(r', cell'),
-                                            inrange |-> BelowHalfWidth(TrueMin2(r', cell'), cell')])>>)
+                                            inrange |-> InRange(TrueMin2(r', cell'), cell')])>>)
 =======================================================================
